@@ -128,7 +128,10 @@ def run_check(prop, tier="quick", seed=0, replay=None):
     # ---- 1. regenerate tables from /repo, 2. build proofs ---------------------------
     from harness.tr import gen_tables
     tr = gen_tables.regenerate()
-    corr_ok, corr_log = coqrun.build(prop.CORR_TARGETS)
+    corr_targets = list(prop.CORR_TARGETS)
+    if "theories/Common/Corr.vo" not in corr_targets:
+        corr_targets.append("theories/Common/Corr.vo")      # the runner every evaluation loads
+    corr_ok, corr_log = coqrun.build(corr_targets)
     ok, log = coqrun.build(prop.TARGETS) if corr_ok else (False, corr_log)
     proof_break = None
     theorems, assum, pa_raw = [], [], ""
@@ -194,7 +197,7 @@ def run_check(prop, tier="quick", seed=0, replay=None):
         codes, errors = classify(prop, all_cases, outs)
         if errors and any("inconsistent assumptions" in e[1] for e in errors):
             # another build changed a shared .vo between our build and the evaluation: rebuild, retry once
-            coqrun.build(prop.CORR_TARGETS)
+            coqrun.build(corr_targets)
             codes, errors = classify(prop, all_cases, outs)
     elif not corr_ok:
         errors = [(0, "model does not build: " + corr_log[-1500:])]
